@@ -143,9 +143,22 @@ JudgeWith(r, x) ==
 \* x is bound through a singleton set: evaluated once (see Stepper)
 JudgeOk(r) == CHOOSE y \in {JudgeWith(r, x) : x \in {Ctx(r)}} : TRUE
 
+\* very long inputs (more than 65 535 bytes): only what can be checked in linear time - the text has no trailing
+\* whitespace, so decoding the ids returns it exactly; every id is a vocabulary id; the byte tokenizer emits the bytes
+JudgeLong(r) ==
+    LET cl == <<
+          <<"C02:decode_is_text_without_trailing_whitespace", r.which = "bpe" => r.dec = r.text>>,
+          <<"C02:ids_are_valid_vocabulary_ids", r.which = "bpe" => \A k \in 1..Len(r.ids) : r.ids[k] < r.vs>>,
+          <<"C01:byte_ids_are_prefix_bytes_suffix", r.which = "byte" => r.ids = r.text>>,
+          <<"C01:byte_decode_body_is_text", r.which = "byte" => r.dec = r.text>>
+        >>
+        bad == SelectSeq(cl, LAMBDA x : ~x[2])
+    IN [why |-> [k \in 1..Len(bad) |-> bad[k][1]], drift |-> <<>>, skip |-> FALSE, nt |-> TRUE]
+
 Judge(r) ==
     IF r.st # "ok"
     THEN [why |-> <<r.st>>, drift |-> <<>>, skip |-> FALSE, nt |-> FALSE]
+    ELSE IF r.kind = "long" THEN JudgeLong(r)
     ELSE JudgeOk(r)
 
 INSTANCE Stepper
